@@ -77,7 +77,7 @@ def stub_offsets(repo: Repo, chk: Check) -> Lin:
         fw = cls.methods["pack"]
         chk.analysed(fw)
         for p in layout.writer_paths(repo, fw):
-            if cond is not None and not any(c.info.get("truthy") == cond[0] and pol == cond[1] for c, pol in p.conds):
+            if cond is not None and not any(c.info.get("truthy") == cond[0] and pol == cond[1] for c, pol in _implied(p.conds)):
                 continue
             tb = Table(codecs.sizes_of(repo)._expand(p.segs))
             for seg, off in zip(tb.segs, tb.offs):
@@ -249,3 +249,9 @@ def prepare_pdu(repo: Repo, chk: Check, fixed_tr: Lin) -> None:
             chk.ob("O4", site, okc, "clear path sends the packed PDU")
     chk.count("prepare paths", n)
     chk.require_min("prepare paths", 2)
+
+
+def _implied(conds: t.Any) -> t.Any:
+    from .c11 import implied
+
+    return implied(conds)
